@@ -114,7 +114,7 @@ theorem longestSustain_int (ext : Ext) (n : Int) :
     simp [initEnv, Gen.Imp.longestSustainLocals]
   rw [h0]
   unfold Gen.Imp.longestSustain
-  exact Or.inl (runs_of_exec 5 fun k => by simp [exec, evalExpr, lookup, bind, Except.bind])
+  exact Or.inl (runs_of_exec 5 fun k => by simp [exec, evalExpr, lookup, bind, Except.bind, isIntB])
 
 def longestV (xs : List Val) : M Val :=
   if xs.all (· == .none) then .error .valueError
@@ -135,7 +135,7 @@ theorem longestSustain_tup (ext : Ext) (xs : List Val) :
   have h2 := maxGen_notNone ext [("sustain", some (.tup (Val.ofList xs)))] "s" (.var "sustain") xs hst
   have s1 : Runs ext (.ite (.isInt (.var "sustain")) (.ret (.var "sustain")) .skip) [("sustain", some (.tup (Val.ofList xs)))]
       (.norm [("sustain", some (.tup (Val.ofList xs)))]) :=
-    Runs.ite_false (by simp [evalExpr, lookup, bind, Except.bind]) (Runs.skip _ _)
+    Runs.ite_false (by simp [evalExpr, lookup, bind, Except.bind, isIntB]) (Runs.skip _ _)
   unfold Gen.Imp.longestSustain longestV
   by_cases ha : xs.all (· == .none) = true
   · simp only [ha, if_true, Returns]
